@@ -1,9 +1,10 @@
 """C08 — Supervision tree: a stopping parent takes all descendants down first."""
 import itertools
 from ..driver import Part
+from . import proc_common as PC
 from .. import common as C
 
-COQ_FILES = ["Tree.v", "TreeProofs.v", "TreeConc.v", "TreeConcProofs.v", "TreeExec.v", "PropsTree.v"]
+COQ_FILES = ["Tree.v", "TreeProofs.v", "TreeConc.v", "TreeConcProofs.v", "TreeExec.v", "PropsTree.v", "Proc.v", "ProcExec.v", "ProcProofs.v", "PropsProc.v"]
 THEOREMS = ["C08_children_first", "C08_events_once", "C08_own_order", "C08_children_listing", "C08_parent",
             "C08_restart_keeps_children", "C08_adoption_corner", "C08_order_oracle_holds_of_model", "C08_done_oracle_holds_of_model",
             "C08_children_first_conc", "C08_signal_after_subtree_conc", "C08_no_hang", "C08_pinned_refuted",
@@ -509,4 +510,12 @@ def shapes_full(depth, fan):
     return () if depth == 1 else tuple(shapes_full(depth - 1, fan) for _ in range(fan))
 
 
-PARTS = [Tree()]
+class Scripted(PC.ProcPart):
+    """a parent's shutdown waits on the stop context of each child: that context must not become done
+    before the child has handled Stopped and is unregistered, whatever the child's batch looked like
+    (pills behind pills, crashes while draining): the C07 predicate on scripted single-actor scenarios"""
+    name = "scripted_stop_contexts"
+    prop = 7
+
+
+PARTS = [Tree(), Scripted()]
